@@ -8,6 +8,9 @@ P: Circuit.top_sort in BOTH directions — Kahn's algorithm over operand / user 
    Invariants: in-degree map = number of operand positions not yet yielded (ghost counting function with its
    defining lemmas), work list = exactly the unyielded gates with in-degree 0; inner loop over the users list
    by the prefix-count view.
+   Circuit.dfs / Circuit.bfs (c20_trav.py) in both directions, from an arbitrary start sequence or the default one: the generator
+   yields exactly the gates reachable from the start set (least closed set: soundness w.r.t. every closed set, completeness
+   as closedness of the yielded set), each exactly once; the circuit is untouched (default hooks).
 B: top_sort in both directions, dfs/bfs from all start sets, hook discipline, cycle check (vlib/bounded/C20.py)."""
 import z3
 
@@ -279,7 +282,10 @@ def run(rep):
     for a in STD_ASSUME:
         rep.assume(a)
     rep.assume('work list modelled as a duplicate-free bag with an arbitrary pop order (absence of duplicates is proved; the order of pops is irrelevant to the clauses)')
-    rep.assume('dfs, bfs, hook discipline and the cycle check are covered by the bounded stand-in only')
+    rep.assume('dfs / bfs: proved (c20_trav.py) that they yield exactly the gates reachable from the start set, each once, for default (no-op) hooks; the work list is abstracted to a multiset with an arbitrary '
+               'read position (sound for these clauses: they hold for every pop order); reachable = least set containing the start gates and closed under successors: soundness against an arbitrary closed set, '
+               'completeness as closedness of the yielded set; precondition: the start gates are gates of the circuit')
+    rep.assume('hook discipline (enter before exit, post-order exits, unvisited hook incl. topsort_unvisited), visiting order and the cycle check are covered by the bounded stand-in only')
     rep.assume('contract of get_gate_users used at its call sites: a list view with count cnt(label, .) and length tot(label) (absent key = empty list); its body is checked against it under C20/get_gate_users')
     it = new_interp()
     pv = Prover(rep, it, 'C20')
@@ -287,6 +293,14 @@ def run(rep):
         it.loop_specs.clear()
         it.contracts.clear()
         pv.run_contract(TopSort(inv))
+    # dfs / bfs (c20_trav.py): exactly the reachable gates, each once — both directions, given and default start gates
+    from .c20_trav import Traverse
+    for mode in ('DFS', 'BFS'):
+        for inv in (False, True):
+            for given in (True, False):
+                it.loop_specs.clear()
+                it.contracts.clear()
+                pv.run_contract(Traverse(mode, inv, given))
     it.loop_specs.clear()
     it.contracts.clear()
     pv.run_contract(GetGateUsers())
@@ -295,5 +309,5 @@ def run(rep):
     refuted = pv.discharge(env.NPROC)
     finish_refuted(rep, pv, refuted)
     run_bounded(rep, 'C20', quick)
-    rep.extra['explanation'] = ('Kahn-style top_sort(inverse=True) proved from the real source with inductive invariants (ghost yielded set, counting function, prefix counts); '
-                                'the other traversals: bounded stand-in.')
+    rep.extra['explanation'] = ('Kahn-style top_sort proved in both directions from the real source with inductive invariants (ghost yielded set, counting function, prefix counts); '
+                                'dfs / bfs proved to yield exactly the reachable gates once each (three-state map and work-list multiset invariants); hooks, visiting order and the cycle check: bounded stand-in.')
